@@ -254,6 +254,10 @@ fn mon_c07_case(r: &mut Rng) -> Case {
     }
     cfg.width = *r.pick(&[1u32, 16, 640, 1920, 4096, 65_535]);
     cfg.height = *r.pick(&[1u32, 16, 480, 1080, 2160, 65_535]);
+    if r.chance(1, 2) {
+        cfg.width = r.any_dim();
+        cfg.height = r.any_dim();
+    }
     let mut side = Side::default();
     let body = small_len(r);
     let data = match cfg.vcodec {
